@@ -1327,7 +1327,9 @@ class ContractionTree:
                 self.childless.add(y)
 
         # pre-computed information
-        if legs is not None:
+        if (legs is not None) and (len(parent) != self.N):
+            # n.b. the root legs must follow the order of ``self.output``, so
+            # they are always computed by ``get_legs`` rather than supplied
             self.info[parent]["legs"] = legs
         if cost is not None:
             self.info[parent]["flops"] = cost
